@@ -48,6 +48,7 @@ TEXT = {
     # ARM64 relocation specifier, alone and combined with an addend
     "lo12": {"arm64": "add x1, x0, :lo12:{0}"},
     "lo12add": {"arm64": "ldr x2, [x0, :lo12:{0}+8]"},
+    "align": {"*": ".balign {0}"},
     "byte": {"*": ".byte 7"},
     "word": {"x64-intel": ".quad {0}+8", "x64-att": ".quad {0}+8", "ia32": ".long {0}+8", "arm64": ".quad {0}+8"},
     "zero": {"*": ".zero 3"},
@@ -154,6 +155,13 @@ def model(prog, chunk_lens, executable, trivially_unreachable, module_symbols):
             continue
         if kind == "raw":
             continue
+        if kind == "align":
+            # alignment applies to the start of a block: a non-empty current block is split (with a fallthrough); no bytes
+            if cur["toks"]:
+                falls[len(raw) - 1] = True
+                new_block()
+            cur["align"] = max(cur.get("align", 0), arg)
+            continue
         n = 0
         for _ in range(CHUNKS.get(kind, 1)):
             n = n + chunk_lens[ci]
@@ -197,18 +205,21 @@ def model(prog, chunk_lens, executable, trivially_unreachable, module_symbols):
     remap = {}
     carry_labels = []
     carry_idx = []
+    carry_align = 0
     for i, b in enumerate(raw):
         if not b["toks"]:
             carry_labels += b["labels"]
             carry_idx.append(i)
+            carry_align = max(carry_align, b.get("align", 0))
             continue
         fb = {"start": b["start"], "size": b["len"], "labels": carry_labels + b["labels"], "toks": b["toks"], "raw": carry_idx + [i],
-              "type": b.get("type")}
+              "type": b.get("type"), "align": max(carry_align, b.get("align", 0))}
+        carry_align = 0
         for j in fb["raw"]:
             remap[j] = len(final)
         final.append(fb)
         carry_labels, carry_idx = [], []
-    trailing = {"labels": carry_labels, "raw": carry_idx} if carry_idx else None
+    trailing = {"labels": carry_labels, "raw": carry_idx, "align": carry_align} if carry_idx else None
     label_block = {}
     for k, fb in enumerate(final):
         for lb in fb["labels"]:
@@ -288,7 +299,7 @@ def h_assemble(eng, target, prog, pie, trivially_unreachable, split_at=None):
         res = asm.finalize()
     sect = res.text_section
     lens = [n for (_, n, _) in rec.chunks]
-    n_tok = sum(CHUNKS.get(t[0], 1) for t in prog if t[0] not in ("label", "raw"))
+    n_tok = sum(CHUNKS.get(t[0], 1) for t in prog if t[0] not in ("label", "raw", "align"))
     eng.check(len(lens) == n_tok, "the streamer appended %d chunks for %d instructions/directives" % (len(lens), n_tok))
     final, edges, trailing, trailing_reached, total = model(prog, lens, True, trivially_unreachable, msyms)
     # ---- bytes and tiling ---------------------------------------------------------------------
@@ -319,6 +330,8 @@ def h_assemble(eng, target, prog, pie, trivially_unreachable, split_at=None):
         got_type = getattr(got_type, "value", got_type)
         want_type = fb.get("type") if fb["kind"] == "data" else None
         eng.check(got_type == want_type, "C12/C13 block at %s carries the encoding %r, the text gives it %r" % (fb["labels"], got_type, want_type))
+        eng.check(sect.alignment.get(b, 0) == fb.get("align", 0), "C12 block at %s has alignment %r, the text asks for %r" % (
+            fb["labels"], sect.alignment.get(b), fb.get("align", 0)))
     has_trailing = len(blocks) > len(nonempty)
     # ---- labels -----------------------------------------------------------------------------------
     local = {s.name: s for s in res.symbols}
@@ -372,7 +385,7 @@ def h_assemble(eng, target, prog, pie, trivially_unreachable, split_at=None):
     ci = 0
     pos = 0
     for kind, arg in prog:
-        if kind in ("label", "raw"):
+        if kind in ("label", "raw", "align"):
             continue
         n = 0
         real = 0
@@ -420,7 +433,7 @@ def _disassemble_check(eng, target, prog, rec, final):
           gtirb.Module.ISA.ARM64: capstone.Cs(capstone.CS_ARCH_ARM64, capstone.CS_MODE_ARM)}[isa]
     ci = 0
     for kind, arg in prog:
-        if kind in ("label", "raw"):
+        if kind in ("label", "raw", "align"):
             continue
         data = rec.chunks[ci][2]
         ci += CHUNKS.get(kind, 1)
@@ -651,6 +664,12 @@ PROGRAMS = {
     "rip-imm": [tok("ripimm", "obj"), tok("o"), tok("ripimm8", "ext"), tok("ripimm", "ext"), tok("ripimm8", "obj"), tok("ret")],
     "ascii-nul": [tok("o"), tok("ret"), tok("ascii"), tok("nul"), tok("label", "s2"), tok("ascii"), tok("byte"), tok("nul"), tok("string")],
     "temp": [tok("label", ".Lt"), tok("o"), tok("jcc", ".Lt"), tok("jmp", ".Lu"), tok("label", ".Lu"), tok("o")],
+    # alignment directives: after code, after a byte-only block that is code because control reaches it, in unreachable data,
+    # at the very start, twice in a row, and behind a transfer
+    "align-after-code": [tok("o"), tok("align", 4), tok("o2"), tok("align", 8), tok("label", "x"), tok("ret")],
+    "align-bytes-reached": [tok("call", "func"), tok("byte"), tok("align", 4), tok("byte"), tok("label", "lbl"), tok("ret")],
+    "align-data": [tok("o"), tok("ret"), tok("byte"), tok("align", 8), tok("byte"), tok("label", "d"), tok("word", "obj")],
+    "align-first": [tok("align", 16), tok("o"), tok("jmp", "func"), tok("align", 4), tok("align", 8), tok("o2")],
     "arm-reloc": [tok("lo12", "obj"), tok("o"), tok("lo12add", "obj"), tok("lea", "obj"), tok("lo12add", "ext"), tok("lo12", "ext"), tok("ret")],
 }
 
